@@ -82,11 +82,18 @@ def build(world, base):
         if t.startswith("@S/"):
             t = os.path.join(sentinel, t[3:])
         os.symlink(t, p)
+    for f in world.get("fifos") or []:
+        p = os.path.join(root, f)
+        os.makedirs(os.path.dirname(p), exist_ok=True)
+        os.mkfifo(p)
     paths = {"root": root, "sentinel": sentinel, "home": home, "scratch": scratch, "base": base}
     g = world.get("git")
     if g:
         _git(root, "init", "-q", "-b", "main")
         _git(root, "add", *(["-f"] if g.get("force") else []), "--", ".")
+        if g.get("force_add"):
+            # tracked although a .gitignore pattern matches: Git does not ignore tracked files
+            _git(root, "add", "-f", "--", *g["force_add"])
         for u in g.get("untracked") or []:
             subprocess.run(["git", "rm", "--cached", "-q", "--", u], cwd=root,
                            stdout=subprocess.PIPE, stderr=subprocess.PIPE)
